@@ -10,10 +10,10 @@ ID = 'C08'
 RULE = ('design spaces: G-sel (gen_sel / layered graphs with nested choices, design-variable and metric leaves) and G-conn '
         '(1-2 connection choices, grouping nodes over 2-3 connectors in 45% of the entries, members hung below permanent or '
         'conditional nodes); histories of 6-14 operations drawn from copy, apply-selection-choice (any live graph, any offered '
-        'option), apply-connection-choice (a random offered edge set), constrain-choices on a copy, decode through a '
+        'option), apply-connection-choice (a random offered edge set), constrain-choices on a copy or on a graph derived with get_for_kept_edges, add_edge on a copy, decode through a '
         'GraphProcessor of the initial graph (random vectors, create=True), store a design-variable / metric value on a live '
         'graph; after every operation all live graphs are observed -- nodes, edges, feasible, final, next choice nodes, option '
-        'lists, choice constraints, offered connection sets and the connector degree settings per connection choice, stored values -- in an order '
+        'lists, choice constraints, the record of automatically taken single-option choices, offered connection sets and the connector degree settings per connection choice, stored values -- in an order '
         'that alternates between oldest-first and newest-first; non-trivial = a history with at least 3 live graphs of which one '
         'differs from its parent; distinct = graph + operation list')
 TRUSTED = ['observations are canonical JSON strings interned to integers before they are handed to the model',
@@ -23,7 +23,7 @@ PARTIAL = ['whether each first observation is the right one is the business of C
            'node attributes read directly from a shared node object (e.g. ConnectorDegreeGroupingNode.deg_list) are not per-graph '
            'observations and are not compared: the degree constraints are read through the graph (see TRUSTED)']
 
-OPS = ['copy', 'sel', 'sel', 'sel', 'conn', 'conn', 'constrain', 'decode', 'decode', 'store', 'store']
+OPS = ['copy', 'sel', 'sel', 'sel', 'conn', 'conn', 'constrain', 'decode', 'decode', 'store', 'store', 'kept', 'grow']
 
 
 def batches(tier, seed):
@@ -101,6 +101,10 @@ def observe(b, g, conn_ids, reverse=False):
                 o['cons'] = sorted([str(cc_.type), [str(nid(n)) for n in cc_.nodes]] for cc_ in g.get_choice_constraints())
             except Exception as e:
                 o['cons'] = 'exc:' + type(e).__name__
+            try:
+                o['taken'] = [[str(nid(cn)), str(nid(on)) if on is not None else None] for cn, on in g.get_taken_single_selection_choices()]
+            except Exception as e:
+                o['taken'] = 'exc:' + type(e).__name__
             o['dv'] = sorted([str(nid(k)), repr(float(v))] for k, v in g.des_var_values.items())
             o['metric'] = sorted([str(nid(k)), repr(float(v))] for k, v in g.metric_values.items())
     return json.dumps(o, sort_keys=True)
@@ -176,6 +180,25 @@ def run_case(case):
                     # a constraint that cannot be made (unequal option counts, an infeasible initial graph, ...) is no operation
                     tags.append('constrain-raises:%s' % type(e).__name__)
                     continue
+            elif kind == 'kept':
+                # derive through get_for_kept_edges (all edges kept), then constrain choices on the derived graph
+                new = g.get_for_kept_edges(list(g.graph.edges(keys=True, data=True)))
+                sels = sorted((n for n in new.graph.nodes if isinstance(n, SelectionChoiceNode) and new.is_constrained_choice(n) is None), key=lambda n: b.ident[n])
+                if len(sels) >= 2 and not new.final:
+                    pick = [sels[r % len(sels)], sels[(r // 7 + 1) % len(sels)]]
+                    if pick[0] is not pick[1]:
+                        try:
+                            new = new.constrain_choices([T.LINKED, T.PERMUTATION, T.UNORDERED, T.UNORDERED_NOREPL][r % 4], pick)
+                        except Exception as e:
+                            tags.append('constrain-raises:%s' % type(e).__name__)
+            elif kind == 'grow':
+                # the in-place builder API used on a copy: the copy grows, the graph it was copied from does not
+                from adsg_core.graph.adsg_nodes import NamedNode
+                hosts = sorted((n for n in g.graph.nodes if type(n) is NamedNode and n in b.ident), key=lambda n: b.ident[n])
+                if not hosts:
+                    continue
+                new = g.copy()
+                new.add_edge(hosts[r % len(hosts)], NamedNode('GROW%d' % (r % 1000)))
             elif kind == 'decode':
                 if proc[0] is None:
                     from adsg_core.optimization.graph_processor import GraphProcessor
